@@ -2,6 +2,9 @@
 expressions) over a finite partition of the inputs. Anything outside the subset raises Undecided."""
 import itertools
 
+NARROW = {"u8": (0, 2 ** 8 - 1), "u16": (0, 2 ** 16 - 1), "u32": (0, 2 ** 32 - 1), "i8": (-2 ** 7, 2 ** 7 - 1), "i16": (-2 ** 15, 2 ** 15 - 1),
+          "i32": (-2 ** 31, 2 ** 31 - 1)}
+
 
 class Undecided(Exception):
     pass
@@ -418,6 +421,9 @@ class Evaluator:
         if short == "parse":
             v = self.ev(args[0])
             if isinstance(v, str) and v.strip().isdigit():
+                targs = n[3][1] if len(n) > 3 and isinstance(n[3], tuple) and n[3] and n[3][0] == "targs" else ()
+                if len(targs) == 1 and targs[0] in NARROW and not NARROW[targs[0]][0] <= int(v.strip()) <= NARROW[targs[0]][1]:
+                    return ("err", "parse")          # the number does not fit the type it is read into
                 return ("ok", int(v.strip()))
             if isinstance(v, str):
                 return ("err", "parse")
